@@ -214,7 +214,8 @@ def dsk7(ctx, c):
     K = _consts(ctx)
     fn = repo.method(CLS, "granule_in_use")
     where = repo.loc(fn, fn.node)
-    rets = _returned_tests(fn.node)
+    from ..inline import flatten as _flatten7
+    rets = _returned_tests(_flatten7(repo, fn, depth=2, exprs=True))        # an index computed by a one-expression helper is read in place
     verdict = None
     for r in rets:
         if isinstance(r, ast.Compare) and len(r.ops) == 1 and "FAT_OFFSET" in U(r.left) and "self.buffer" in U(r.left):
@@ -291,7 +292,7 @@ def dsk7(ctx, c):
     af = repo.method(CLS, "add_file")
     wa = repo.loc(af, af.node)
     from ..inline import flatten as _flatten
-    af_flat = _flatten(repo, af, depth=2, only={m_ for m_ in repo.cls(CLS).methods if m_ not in ("write_to_granules", "write_dir_entry", "write_to_fat", "find_empty_granule", "find_empty_directory_entry",
+    af_flat = _flatten(repo, af, depth=2, exprs=True, only={m_ for m_ in repo.cls(CLS).methods if m_ not in ("write_to_granules", "write_dir_entry", "write_to_fat", "find_empty_granule", "find_empty_directory_entry",
                                                                                                     "calculate_granules_needed", "calculate_last_sector_bytes_used", "calculate_last_granules_sectors_used")})
     found = False
     for n in ast.walk(af_flat):
